@@ -150,11 +150,30 @@ where
     }
 }
 
+/// Verification hook (only with `--cfg chialisp_verif`): aborts the process when the
+/// crash point named by the environment variable CHIALISP_VERIF_CRASH_AT is reached, and
+/// appends every point reached to the file named by CHIALISP_VERIF_TRACE when set.
+#[cfg(chialisp_verif)]
+pub fn verif_crash_point(k: u32) {
+    if let Ok(path) = std::env::var("CHIALISP_VERIF_TRACE") {
+        if let Ok(mut f) = fs::OpenOptions::new().create(true).append(true).open(path) {
+            let _ = writeln!(f, "{k}");
+        }
+    }
+    if let Ok(v) = std::env::var("CHIALISP_VERIF_CRASH_AT") {
+        if v.parse::<u32>().ok() == Some(k) {
+            std::process::abort();
+        }
+    }
+}
+
 pub fn atomic_write_file(
     input_path: &str,
     output_path: &str,
     target_data: &str,
 ) -> Result<(), String> {
+    #[cfg(chialisp_verif)]
+    verif_crash_point(1);
     let output_path_obj = Path::new(output_path);
     let output_dir = output_path_obj
         .parent()
@@ -165,6 +184,8 @@ pub fn atomic_write_file(
     // won't mistake an empty file for intended output.
     let mut temp_output_file = NamedTempFile::new_in(output_dir)
         .map_err(|e| format!("error creating temporary compiler output for {input_path}: {e:?}"))?;
+    #[cfg(chialisp_verif)]
+    verif_crash_point(2);
 
     let err_text = format!("failed to write to {:?}", temp_output_file.path());
     let translate_err = |_| err_text.clone();
@@ -172,10 +193,14 @@ pub fn atomic_write_file(
     temp_output_file
         .write_all(target_data.as_bytes())
         .map_err(translate_err)?;
+    #[cfg(chialisp_verif)]
+    verif_crash_point(3);
 
     temp_output_file
         .persist(output_path)
         .map_err(|e| format!("error persisting temporary compiler output {output_path}: {e:?}"))?;
+    #[cfg(chialisp_verif)]
+    verif_crash_point(4);
 
     Ok(())
 }
@@ -185,15 +210,21 @@ pub fn gentle_overwrite(
     output_path: &str,
     target_data: &str,
 ) -> Result<(), String> {
+    #[cfg(chialisp_verif)]
+    verif_crash_point(10);
     if let Ok(prev_content) = fs::read_to_string(output_path) {
         let prev_trimmed = prev_content.trim();
         let trimmed = target_data.trim();
+        #[cfg(chialisp_verif)]
+        verif_crash_point(11);
         if prev_trimmed == trimmed {
             // We should try to overwrite here, but not fail if it doesn't
             // work.  This will accomodate both the read only scenario and
             // the scenario where a target file is newer and people want the
             // date to be updated.
             atomic_write_file(input_path, output_path, target_data).ok();
+            #[cfg(chialisp_verif)]
+            verif_crash_point(12);
 
             // It's the same program, bail regardless.
             return Ok(());
